@@ -179,7 +179,8 @@ def run_variant(key, base_seed, budget_s, max_runs, workers, agg, known,
                             'error': f'worker task failed for indices {idx}: '
                                      f'{e!r}'}))
                         agg.verdicts['HARNESS'] += 1
-                    if time.time() < t_end:
+                    # enough counter-examples: stop exploring, report
+                    if time.time() < t_end and len(agg.violations) < 6:
                         submit()
         except BrokenProcessPool as e:
             broken += 1
